@@ -336,7 +336,7 @@ func parseContractFile(path, pkgPath string) (*ContractFile, error) {
 			callee := fields[1]
 			pp := pend[len(pend)-1]
 			copyBack = append(copyBack, func() { cc.AtCall[callee] = append(cc.AtCall[callee], *pp.c) })
-			curSlot = nil
+			curSlot = pp // continuation lines allowed
 		case "impl":
 			// impl <interface type name> <concrete type>
 			if len(fields) != 3 {
